@@ -19,6 +19,8 @@ mod tables;
 mod gen_session;
 #[path = "../gen_names.rs"]
 mod gen_names;
+#[path = "../c05_digits.rs"]
+mod c05_digits;
 
 fn main() {
     let args: Vec<String> = std::env::args().collect();
@@ -41,6 +43,8 @@ fn main() {
         "gen-c10" => gen_units::run_c10(&opts),
         "gen-c15" => gen_session::run(&opts),
         "c07" => gen_names::run(&opts),
+        "c05" => c05_digits::run(&opts),
+        "c05-one" => c05_digits::one(&opts),
         "c07-one" => gen_names::one(&opts),
         "encode" => {
             // encode plain-text query lines (stdin) as request lines
